@@ -215,6 +215,6 @@ pub fn run_state(rng: &mut Rng, rep: &mut Report, prop: &str) {
 }
 
 pub fn run(cfg: &RunCfg) -> Report {
-    let cases = cfg.cases(3_000_000, 60_000_000);
+    let cases = cfg.cases(3_000_000, 360_000_000);
     run_cases(cfg, 0, cases, Duration::from_secs(3600), |_c, rng, rep| run_state(rng, rep, "C03"))
 }
